@@ -3,12 +3,18 @@
 S1  TLC checks RuleStore.tla exhaustively: the design (raw-input cache for unchanged-detection, grouped whole-set
     path, per-resource path, refused loads) satisfies the property level (want = valid rules of the most recent load
     per resource, getters = enforced, identical reload = unchanged) for all mixed sequences of whole-set / per-resource
-    loads and clears over lists of valid / invalid / nil elements; four deliberately broken variants of the spec must be
-    caught (vacuity self-test).
+    loads and clears over lists of valid / near-equal / invalid / nil elements; six deliberately broken variants of the
+    spec must be caught (vacuity self-test).
 S2  scenarios: (a) one per transition of a small bounded instance of the same spec, per module descriptor,
     (b) TLC random simulation of a larger instance, (c) seeded random sequences with longer lists.  Abstract tokens are
     mapped onto the concrete token table of each of the six modules; the k-th invalid token cycles through every
     field-wise invalidity of the module's IsValid... function.
+    NEAR-EQUAL VARIANTS: tokens "R1a" / "R1b" stand for the rule of "R1" with ONE field changed slightly (fractional
+    threshold, +-1 on an integer field, a flipped enum; the driver's delta table has an entry for every field a module's
+    rule equality / controller reuse looks at).  The spec treats them as different rules (identity = full field tuple),
+    models controller reuse explicitly (Rebuild) and names the failure of a too coarse equality (NoStaleVariant, spec
+    mutants coarseReuse / coarseUnchanged); scenario families (d) transitions of spec instances over {R1, R1a, R1b},
+    (e) fixed reload patterns old -> near-equal new for EVERY (module, base rule, field), (f) random sequences.
 S3  harness/cmd/c13 replays them on the real rule managers (fresh rule objects per call, panics recovered) and records
     the returned (changed, err, panicked), GetRules()/GetRulesOfResource() and the answers of probing requests.
 S4  RuleStore_Trace.tla (TLC) judges every recorded observable with the operators of RuleStore.tla.
@@ -22,9 +28,23 @@ LIST_BASED = ['flow', 'isolation', 'hotspot', 'circuitbreaker']
 NVAR = dict(flow=16, isolation=3, hotspot=9, circuitbreaker=6, system=4, outlier=8)
 VALID = ['R1', 'R2', 'R3']
 INVALID = ['I1', 'I2', 'I3']
+NEAR = {}        # module -> base token -> [names of the near-equal variants], read from the driver (c13 -describe)
+INVS = 'TypeOK EnforcedIsLatestValid NothingElseEnforced OnlyValidEnforced ReportedIsEnforced NoStaleVariant IdenticalReloadUnchanged'
 
 
-def mc_cfg(descs, resources, tokens, maxlen, mutant='none', check=True, extra=''):
+def is_near(tok):
+    return len(tok) == 3 and tok[0] == 'R'
+
+
+def near_tok(mod, tok):
+    """a near token the module has no (second) variant for falls back to the first variant / the base token"""
+    if not is_near(tok):
+        return tok
+    n = len(NEAR[mod][tok[:2]])
+    return tok[:2] if n == 0 else tok[:2] + 'a' if n == 1 else tok
+
+
+def mc_cfg(descs, resources, tokens, maxlen, mutant='none', check=True, extra='', invs=None):
     return """SPECIFICATION Spec
 CONSTANTS
   Descs <- %s
@@ -36,14 +56,21 @@ VIEW view
 %s
 CHECK_DEADLOCK FALSE
 %s""" % (descs, ', '.join('"%s"' % r for r in resources), ', '.join('"%s"' % t for t in tokens), maxlen, mutant,
-         'INVARIANTS TypeOK EnforcedIsLatestValid NothingElseEnforced OnlyValidEnforced ReportedIsEnforced IdenticalReloadUnchanged\n'
-         'PROPERTIES ErrorMeansRejected' if check else '', extra)
+         'INVARIANTS ' + (invs or INVS) + '\nPROPERTIES ErrorMeansRejected' if check else '', extra)
 
 
 # ---------------------------------------------------------------------------------------------- scenarios
 def variants(mod, tr):
-    """the k-th invalid token of scenario tr carries variant 3*tr+k: every field-wise invalidity comes round"""
-    return {t: (3 * tr + k) % NVAR[mod] for k, t in enumerate(INVALID)}
+    """the k-th invalid token of scenario tr carries variant 3*tr+k: every field-wise invalidity comes round;
+    the near tokens <base>a / <base>b carry the deltas 2*tr / 2*tr+1 of the module's table for that base"""
+    v = {t: (3 * tr + k) % NVAR[mod] for k, t in enumerate(INVALID)}
+    for b in VALID:
+        n = len(NEAR[mod][b])
+        if n:
+            v[b + 'a'] = (2 * tr) % n
+        if n > 1:
+            v[b + 'b'] = (2 * tr + 1) % n
+    return v
 
 
 def concretise(hist, mod, tr, rng):
@@ -54,7 +81,10 @@ def concretise(hist, mod, tr, rng):
     for o in hist:
         lst = []
         for tok, res in o['list']:
-            tok = vmap.get(tok, imap.get(tok, tok))
+            if is_near(tok):
+                tok = near_tok(mod, vmap[tok[:2]] + tok[2])
+            else:
+                tok = vmap.get(tok, imap.get(tok, tok))
             if mod == 'system' and tok != 'Nil':
                 res = 'sys'
             lst.append([tok, res])
@@ -66,22 +96,24 @@ def concretise(hist, mod, tr, rng):
 
 
 def outlier_ok(o):
-    """outlier holds ONE rule per resource: whole-set lists name each resource at most once, a per-resource load is one rule"""
+    """outlier holds ONE rule per resource: whole-set lists name each resource at most once, a per-resource load is one (non-nil) rule"""
     if o['op'] == 'clear':
         return True
     if o['scope'] != '*':
-        return len(o['list']) <= 1
+        # (LoadRuleOfResource(res, nil) IS the per-resource clear: a nil element cannot be expressed on this path)
+        return len(o['list']) <= 1 and all(t != 'Nil' for t, _ in o['list'])
     rs = [r for t, r in o['list'] if t != 'Nil']
     return len(rs) == len(set(rs))
 
 
-def random_scenario(rng, mod, tr):
+def random_scenario(rng, mod, tr, near=False):
     ress = ['sys'] if mod == 'system' else ['r1', 'r2']
     per_res = mod != 'system'
     use_nil = rng.random() < 0.3
     foreign = rng.random() < 0.15
     s = [dict(op='new', tr=tr, mod=mod, var=variants(mod, tr))]
     prev = None
+    near_base = rng.choice(VALID) if near else None
     for _ in range(rng.randint(2, 7)):
         x = rng.random()
         if prev is not None and x < 0.22:
@@ -106,6 +138,10 @@ def random_scenario(rng, mod, tr):
                     if tok == 'Nil':
                         lst.append(['Nil', '-'])
                         continue
+                    if near and tok[0] == 'R':        # mostly variants of ONE base rule: reloads old -> near-equal new
+                        if rng.random() < 0.7:
+                            tok = near_base
+                        tok = near_tok(mod, tok + rng.choice(['', 'a', 'b']))
                     res = scope if scope != '*' else rng.choice(ress)
                     if scope != '*' and foreign and rng.random() < 0.3:
                         res = [r for r in ress if r != scope][0]
@@ -157,6 +193,57 @@ def pattern_scenarios(mod, tr0):
     return out
 
 
+def near_patterns(mod, tr0):
+    """for EVERY near-equal variant (base rule b, field k) of the module: reloads b -> variant -> b, variant -> the same
+    variant (identical) -> the next variant, on the whole-set path, on the per-resource path, across the two paths, and
+    with an unchanged neighbour before / behind it in the list"""
+    res = 'sys' if mod == 'system' else 'r1'
+    per_res, single = mod != 'system', mod == 'outlier'
+    out, tr = [], tr0
+    for b in VALID:
+        n = len(NEAR[mod][b])
+        for k in range(n):
+            var = {b + 'a': k}
+            if n > 1:
+                var[b + 'b'] = (k + 1) % n
+            B, Ba = [[b, res]], [[b + 'a', res]]
+            Bb = [[b + 'b', res]] if n > 1 else B
+            X = [[[x for x in VALID if x != b][k % 2], res]]
+            seqs = [[('load', '*', B), ('load', '*', Ba), ('load', '*', B)]]
+            if per_res:
+                seqs += [[('load', res, B), ('load', res, Ba), ('load', res, Ba), ('load', res, Bb)],
+                         [('load', res, Ba), ('load', '*', Bb), ('load', res, B)]]
+            else:
+                seqs += [[('load', '*', Ba), ('load', '*', Ba), ('load', '*', Bb)]]
+            if not single:
+                seqs += [[('load', '*', X + B), ('load', '*', X + Ba), ('load', '*', Bb + X)]]
+                if per_res:
+                    seqs += [[('load', res, B + X), ('load', res, Ba + X), ('load', res, X + Bb)]]
+            for q in seqs:
+                tr += 1
+                out.append([dict(op='new', tr=tr, mod=mod, var=dict(variants(mod, tr), **var))] + [dict(op=o, scope=sc, list=l) for o, sc, l in q])
+    return out
+
+
+def near_reloads(s):
+    """{(base, delta index)} of the variants that take part in a reload old -> near-equal new (same resource, same base
+    token, different rule) in scenario s"""
+    var, cur, out = s[0]['var'], {}, set()
+    for o in s[1:]:
+        by_res = {}
+        for t, r in o['list']:
+            by_res.setdefault(r, []).append(t)
+        scope = o['scope']
+        for r in (set(cur) | set(by_res)) if scope == '*' else [scope]:
+            new = by_res.get(r, [])
+            for t in new:
+                for u in cur.get(r, []):
+                    if t != u and t[0] == 'R' and t[:2] == u[:2]:
+                        out |= {(x[:2], var[x]) for x in (t, u) if is_near(x)}
+            cur[r] = new
+    return out
+
+
 def nontrivial(s):
     """exercises the property: an invalid / nil element, an identical non-empty reload, or whole-set and per-resource ops mixed"""
     ops = s[1:]
@@ -165,7 +252,7 @@ def nontrivial(s):
     inv = any(t[0] in 'IN' for o in ops for t, _ in o['list'])
     ident = any(a == b and a['op'] == 'load' and a['list'] for a, b in zip(ops, ops[1:]))
     mixed = any(o['scope'] == '*' for o in ops) and any(o['scope'] != '*' for o in ops)
-    return inv or ident or mixed
+    return inv or ident or mixed or bool(near_reloads(s))
 
 
 def maximal(hs):
@@ -226,8 +313,19 @@ def signature(ev, exp, scn=None):
                     'hotspot: an identical reload of a list with a rule whose SpecificItems is nil reports "changed" '
                     '(the first load stored an empty map into the cached caller rule)')
         return ('C13/%s/%s/identical-reload-reports-changed' % (mod, path), '%s: identical reload of %s reports changed/err' % (mod, ev['list']))
-    # a rule set differs from the demanded one: attribute EVERY discrepancy the spec names (badp / badrep / badall)
     want = exp['want']
+    if 'stale' in why:
+        # RuleStore!NoStaleVariant on the observed behaviour: a request is refused by a rule that is not in force although
+        # a near-equal variant of it (same resource, one field differs slightly) is
+        st = exp['stale'][0]
+        var = scn[0]['var'] if scn else {}
+        names = ['%s = %s with %s' % (t, t[:2], NEAR[mod][t[:2]][var[t]]) for t in sorted({st['by']} | {x[0] for x in want.get(st['res'], [])})
+                 if is_near(t) and t in var and t[:2] == st['by'][:2]]
+        return ('C13/%s/%s/near-equal-reload-keeps-old-rule' % (mod, path),
+                '%s: after %s %s of %s a request of %s (probe %s) is refused by rule %s, which is NOT in force: the rules of the latest load are %s and '
+                'the getters report them, but the controller of the near-equal earlier rule survived the reload [%s]' % (
+                    mod, path, ev['scope'], ev['list'], st['res'], st['p'], st['by'], json.dumps(want.get(st['res'], [])), '; '.join(names)))
+    # a rule set differs from the demanded one: attribute EVERY discrepancy the spec names (badp / badrep / badall)
     invalid_in_list = [t for t in toks if t[0] == 'I']
     foreign = [[t, r] for t, r in ev['list'] if not whole and r != ev['scope'] and t[0] == 'R']
     K12 = 'C13/circuitbreaker/per-resource-load/invalid-rule-enforced'
@@ -238,9 +336,9 @@ def signature(ev, exp, scn=None):
     keys = set()
     if ev['op'] == 'load' and not whole and 'unchanged' not in why:
         for p in exp['badp']:
-            if mod == 'circuitbreaker' and p['by'] in invalid_in_list and p['res'] == ev['scope']:
+            if mod == 'circuitbreaker' and p.get('by') in invalid_in_list and p['res'] == ev['scope']:
                 keys.add(K12)
-            elif p['by'] in ['?%s@%s' % (t, r) for t, r in foreign] and p['res'] == ev['scope']:
+            elif p.get('by') in ['?%s@%s' % (t, r) for t, r in foreign] and p['res'] == ev['scope']:
                 keys.add(KF)
             else:
                 keys.add('?')
@@ -359,7 +457,10 @@ def binding_selftest(c, tp, bad_trs):
             k = c.rng.choice(['probe', 'rep', 'all', 'panic', 'extra'])
             if k == 'probe':
                 p = c.rng.choice(e['probes'])
-                p['by'] = 'I1' if p['by'] == 'pass' else 'pass'
+                if 'hit' in p:
+                    p['hit'] = not p['hit']
+                else:
+                    p['by'] = 'I1' if p['by'] == 'pass' else 'pass'
             elif k == 'rep' and e.get('rep'):
                 r = c.rng.choice(sorted(e['rep']))
                 e['rep'][r] = e['rep'][r][1:] if e['rep'][r] else [['R1', r]]
@@ -388,6 +489,7 @@ def binding_selftest(c, tp, bad_trs):
 # ---------------------------------------------------------------------------------------------- the check
 def check(c, tier, replay):
     drv = c.build('c13')
+    NEAR.update(json.loads(c.run([drv, '-describe']).stdout))
     groups = {}
     if replay:
         s = read_ndjson(replay)
@@ -406,11 +508,14 @@ def check(c, tier, replay):
         return
     thorough = tier == 'thorough'
     # S1 ---------------------------------------------------------------------------------
+    # The second valid token of the quick model is the near-equal variant R1a of R1: without a mutant the design treats it
+    # like any other valid token (the state space is that of {R1, R2, I1}), and NoStaleVariant is checked non-trivially.
     if not thorough:
-        runs = [('MCDescs', ['r1', 'r2'], ['R1', 'R2', 'I1'], 2)]
+        runs = [('MCDescs', ['r1', 'r2'], ['R1', 'R1a', 'I1'], 2)]
     else:
-        runs = [('MCDescs', ['r1', 'r2'], ['R1', 'R2', 'I1'], 2), ('MCDescs', ['r1', 'r2'], ['R1', 'R2', 'R3', 'I1'], 2),
-                ('MCDescs', ['r1'], ['R1', 'R2', 'I1'], 3)]
+        runs = [('MCDescs', ['r1', 'r2'], ['R1', 'R2', 'I1'], 2), ('MCDescs', ['r1', 'r2'], ['R1', 'R1a', 'R1b', 'I1'], 2),
+                ('MCDescs', ['r1', 'r2'], ['R1', 'R2', 'R3', 'I1'], 2), ('MCDescs', ['r1'], ['R1', 'R2', 'I1'], 3),
+                ('MCDescs', ['r1'], ['R1', 'R1a', 'R2'], 3)]
     for descs, ress, toks, ml in runs:
         r = c.model_check('RuleStore_MC', cfg_text=mc_cfg(descs, ress, toks, ml), workers=8, timeout=3000)
         if not r.completed:
@@ -418,8 +523,11 @@ def check(c, tier, replay):
     c.cov['exhaustive'] = True
     # vacuity: every deliberately broken variant of the design must violate an invariant
     caught = {}
-    for mut in ['rawBuild', 'staleClear', 'wrongCache', 'neverUnchanged']:
-        r = c.tlc('RuleStore_MC', cfg_text=mc_cfg('MCDescs1', ['r1', 'r2'], ['R1', 'R2', 'I1'], 2, mutant=mut), workers=4, timeout=600, count=False)
+    for mut in ['rawBuild', 'staleClear', 'wrongCache', 'neverUnchanged', 'coarseReuse', 'coarseUnchanged']:
+        # the two mutants with a too coarse rule equality must be caught by NoStaleVariant alone
+        coarse = mut.startswith('coarse')
+        r = c.tlc('RuleStore_MC', cfg_text=mc_cfg('MCDescs1', ['r1', 'r2'], ['R1', 'R1a', 'I1'], 2, mutant=mut, invs='NoStaleVariant' if coarse else None),
+                  workers=4, timeout=600, count=False)
         if not r.violated:
             raise MachineryError('vacuity self-test: spec mutant %s is not caught by TLC (%s)' % (mut, r.error))
         caught[mut] = r.violated
@@ -432,8 +540,14 @@ def check(c, tier, replay):
            ('MCDescsSys', ['sys'], ['R1', 'R2', 'I1'], 2, ['system']), ('MCDescsOut', ['r1', 'r2'], ['R1', 'I1'], 1, ['outlier'])]
     if thorough:
         gen.append(('MCDescs1', ['r1', 'r2'], ['R1'], 2, LIST_BASED))
-    cover_n = 0
-    for descs, ress, toks, ml, mods in gen:
+    # (d) instances whose tokens are a rule and its near-equal variants: every transition is a reload old -> near-equal new,
+    # an identical reload of a variant, or a clear in between
+    ngen = [('MCDescs1', ['r1'], ['R1', 'R1a', 'R1b'], 2, LIST_BASED), ('MCDescs1', ['r1', 'r2'], ['R1', 'R1a'], 1, LIST_BASED),
+            ('MCDescsSys', ['sys'], ['R1', 'R1a', 'R1b'], 2, ['system']), ('MCDescsOut', ['r1', 'r2'], ['R1', 'R1a'], 1, ['outlier'])]
+    nscns = []
+
+    def transition_cover(descs, ress, toks, ml, mods, into, tr):
+        n = 0
         cfg = mc_cfg(descs, ress, toks, ml, check=False, extra='ACTION_CONSTRAINT Emit\n')
         r = c.tlc('RuleStore_MC', cfg_text=cfg, workers=4, timeout=900, count=False)
         if r.error:
@@ -447,9 +561,17 @@ def check(c, tier, replay):
                 if s:
                     tr += 1
                     k += 1
-                    scns.append(s)
-            cover_n += k
-            c.log('S2 transition cover %s -> %s: %d maximal histories, %d scenarios' % (descs, mod, len(hs), k))
+                    into.append(s)
+            n += k
+            c.log('S2 transition cover %s %s -> %s: %d maximal histories, %d scenarios' % (descs, '/'.join(toks), mod, len(hs), k))
+        return n, tr
+
+    cover_n = 0
+    for g in gen:
+        n, tr = transition_cover(*g, scns, tr)
+        cover_n += n
+    if not thorough:
+        cap = 120
     # TLC simulation of a larger instance (3 valid + 2 invalid tokens + nil, lists <= 3)
     sim = []
     for descs, ress, mods in [('MCDescs1', ['r1', 'r2'], LIST_BASED), ('MCDescsSys', ['sys'], ['system']), ('MCDescsOut', ['r1', 'r2'], ['outlier'])]:
@@ -477,9 +599,22 @@ def check(c, tier, replay):
             ps = pattern_scenarios(mod, tr)
             tr += len(ps)
             pat += ps
+    # (e) reloads old -> near-equal new for every (module, base rule, field), (f) random sequences over a rule and its variants
+    npat, nrnd = [], []
+    for g in ngen:
+        n, tr = transition_cover(*g, nscns, tr)
+        cover_n += n
+    for mod in MODS:
+        ps = near_patterns(mod, tr)
+        tr += len(ps)
+        npat += ps
+    for mod in MODS:
+        for _ in range(60 if not thorough else 600):
+            tr += 1
+            nrnd.append(random_scenario(c.rng, mod, tr, near=True))
     # S3 + S4 ----------------------------------------------------------------------------
     first = True
-    for tag, group in (('tlc', scns), ('sim', sim), ('rnd', rnd), ('pat', pat)):
+    for tag, group in (('tlc', scns), ('sim', sim), ('rnd', rnd), ('pat', pat), ('ntlc', nscns), ('npat', npat), ('nrnd', nrnd)):
         for i in range(0, len(group), 1500):
             part = group[i:i + 1500]
             mism, tp = run_and_validate(c, drv, part, '%s%d' % (tag, i))
@@ -489,7 +624,7 @@ def check(c, tier, replay):
             c.cov['conformance_mismatches'] += len(mism)
             handle_mismatches(c, drv, part, mism, tag, groups)
     conclude(c, drv, groups)
-    allscn = scns + sim + rnd + pat
+    allscn = scns + sim + rnd + pat + nscns + npat + nrnd
     c.cov['distinct_nontrivial'] = len({json.dumps(s[1:], sort_keys=True) + s[0]['mod'] for s in allscn if nontrivial(s)})
     seen = set()
     for s in allscn:
@@ -500,18 +635,33 @@ def check(c, tier, replay):
     c.cov['invalid_variants_exercised'] = '%d of %d (module, field-wise invalidity) pairs' % (len(seen), sum(NVAR.values()))
     if len(seen) < sum(NVAR.values()):
         c.inconclusive.append('only %d of %d field-wise invalidities were exercised' % (len(seen), sum(NVAR.values())))
+    nseen = {}
+    for s in allscn:
+        for b, k in near_reloads(s):
+            nseen[(s[0]['mod'], b, k)] = nseen.get((s[0]['mod'], b, k), 0) + 1
+    nall = [(m, b, k) for m in MODS for b in VALID for k in range(len(NEAR[m][b]))]
+    c.cov['near_equal_reloads'] = '%d of %d (module, base rule, changed field) variants took part in a reload old -> near-equal new; %d scenarios contain one' % (
+        len(nseen), len(nall), sum(1 for s in allscn if near_reloads(s)))
+    c.cov['near_equal_variants'] = {m: {b: NEAR[m][b] for b in VALID} for m in MODS}
+    missing = [x for x in nall if x not in nseen]
+    if missing:
+        c.inconclusive.append('near-equal variants never reloaded: %s' % missing[:10])
     c.cov['per_module'] = {m: sum(1 for s in allscn if s[0]['mod'] == m) for m in MODS}
     c.cov['rule'] = ('scenarios = one per transition of the bounded RuleStore spec per module (%d) + TLC random simulation (%d) + seeded '
-                     'random sequences (%d) + %d fixed patterns; non-trivial = distinct (module, operation sequence) with >= 2 operations that contains an '
-                     'invalid or nil element, an identical non-empty reload, or mixes whole-set and per-resource operations'
-                     % (cover_n, len(sim), len(rnd), len(pat)))
+                     'random sequences (%d) + %d fixed patterns + near-equal variants: %d reload patterns (one group per module, base rule and field) and %d '
+                     'random sequences; non-trivial = distinct (module, operation sequence) with >= 2 operations that contains an '
+                     'invalid or nil element, an identical non-empty reload, a reload old -> near-equal new, or mixes whole-set and per-resource operations'
+                     % (cover_n, len(sim), len(rnd), len(pat), len(npat), len(nrnd)))
     c.sample(scns[len(scns) // 2])
     c.sample(sim[0] if sim else rnd[0])
     c.sample(rnd[len(rnd) // 2])
+    c.sample(npat[len(npat) // 2])
     c.assumptions += ['callers pass freshly allocated rule objects on every call and never mutate them (the property\'s domain)',
                       'valid tokens use strategies the module implements (a rule that passes IsValidRule but names an unknown strategy has no controller)',
                       'outlier holds one rule per resource: whole-set lists name each resource at most once',
                       'a rule is identified by its ID, which the driver derives from the token (= the semantic fields)',
+                      'near-equal variants: the probe table of a variant (which probing requests its rule refuses) is the driver\'s delta table '
+                      '(c13 -calibrate compares it with a first load of every variant)',
                       'a load that returns an error may leave its scope as it was (RejectedLoad); "identical reload reports unchanged" is demanded for '
                       'non-empty loads only; the changed flag of a non-identical load is free',
                       'system: which of several violated rules is named, and the order of GetRules(), are free (map iteration)',
